@@ -94,7 +94,17 @@ func (c *wsConnection) subscribe(ctx context.Context, id string, req *common.Req
 	c.subs[id] = handler
 	c.subsMu.Unlock()
 
-	subscribeCtx, subscribeCancel := context.WithTimeout(ctx, c.writeTimeout)
+	// A subscriber that is already gone must not write to the shared connection.
+	if err := ctx.Err(); err != nil {
+		c.removeSub(id)
+		return nil, err
+	}
+
+	// The write is bounded by the connection's own context and the write
+	// timeout, not by the subscriber's context: coder/websocket closes the whole
+	// connection when the context of a write is done, which would fail every
+	// other subscription multiplexed on it.
+	subscribeCtx, subscribeCancel := context.WithTimeout(c.ctx, c.writeTimeout)
 	defer subscribeCancel()
 
 	if err := c.protocol.Subscribe(subscribeCtx, c.conn, id, req); err != nil {
